@@ -172,7 +172,7 @@ func derInt(v int64) []byte {
 	var b []byte
 	for {
 		b = append([]byte{byte(v)}, b...)
-		if (v >= -128 && v < 128) {
+		if v >= -128 && v < 128 {
 			break
 		}
 		v >>= 8
@@ -202,20 +202,20 @@ func derExplicit(tag int, inner []byte) []byte {
 func goFlag(tag int) []byte { return derExplicit(tag, []byte{0x01, 0x00}) }
 
 type kdSpec struct {
-	attVersion, secLevel   int
-	challenge              []byte
-	swAll, teeAll          bool
-	teeNoAuth              bool
-	teeOrigin              int
-	hasOrigin              bool
-	teePurpose             []int
-	keySize, osVersion     int
-	brand                  []byte
-	rot                    bool
-	rotKey                 []byte
-	rotLocked              bool
-	swCreation             int
-	nullStyle              string // "go" (encoding/asn1's own flag form) | "schema" (EXPLICIT NULL, as published)
+	attVersion, secLevel int
+	challenge            []byte
+	swAll, teeAll        bool
+	teeNoAuth            bool
+	teeOrigin            int
+	hasOrigin            bool
+	teePurpose           []int
+	keySize, osVersion   int
+	brand                []byte
+	rot                  bool
+	rotKey               []byte
+	rotLocked            bool
+	swCreation           int
+	nullStyle            string // "go" (encoding/asn1's own flag form) | "schema" (EXPLICIT NULL, as published)
 }
 
 func (k kdSpec) authList(tee bool) []byte {
